@@ -696,6 +696,70 @@ def rule_e(ctx):
     ctx.floor(R, 2)
 
 
+def _option_key_of(fnode, name):
+    """Option key that the local `name` is read from (`self.options.get(<key>, ...)`), following a tuple unpacking of a
+    tuple / generator of such reads by position; None when it cannot be told."""
+    for st in ast.walk(fnode):
+        if not isinstance(st, ast.Assign) or len(st.targets) != 1:
+            continue
+        t, v = st.targets[0], st.value
+        if isinstance(t, ast.Name) and t.id == name:
+            if isinstance(v, ast.Call) and norm(v.func) in ("self.options.get", "options.get", "self.options.pop") and v.args and isinstance(v.args[0], ast.Constant):
+                return v.args[0].value
+            if isinstance(v, ast.Subscript) and norm(v.value) in ("self.options", "options") and isinstance(v.slice, ast.Constant):
+                return v.slice.value
+            return None
+        if isinstance(t, (ast.Tuple, ast.List)) and any(isinstance(e, ast.Name) and e.id == name for e in t.elts):
+            pos = next(i for i, e in enumerate(t.elts) if isinstance(e, ast.Name) and e.id == name)
+            if isinstance(v, (ast.Tuple, ast.List)) and len(v.elts) == len(t.elts):
+                e = v.elts[pos]
+                if isinstance(e, ast.Call) and norm(e.func) in ("self.options.get", "options.get") and e.args and isinstance(e.args[0], ast.Constant):
+                    return e.args[0].value
+                return None
+            if isinstance(v, (ast.GeneratorExp, ast.ListComp)) and len(v.generators) == 1 and isinstance(v.generators[0].iter, (ast.Tuple, ast.List)) \
+                    and len(v.generators[0].iter.elts) == len(t.elts) and isinstance(v.generators[0].target, ast.Name):
+                kv = v.generators[0].target.id
+                e = v.elt
+                if isinstance(e, ast.Call) and norm(e.func) in ("self.options.get", "options.get") and e.args and isinstance(e.args[0], ast.Name) and e.args[0].id == kv:
+                    k = v.generators[0].iter.elts[pos]
+                    return k.value if isinstance(k, ast.Constant) else None
+            return None
+    return None
+
+
+def rule_h(ctx):
+    R = "C04.h"
+    ctx.rule(R, "each stopping criterion is compared with the tolerance the caller set for it: in the conjunction that sets converged = True, "
+             "the history entry `...residual` is bounded by the local read from option 'tol_residual', the entries `...increment` "
+             "(other than the distance increment) by 'tol_increment', and `distance_increment` by 'tol_distance' (definitions resolved "
+             "through tuple unpacking by position)")
+    m = ctx.model
+    for cname in SOLVERS:
+        f = m.func(WAS, f"{cname}._solve")
+        crit = []
+        for n in ast.walk(f.node):
+            if isinstance(n, ast.If) and any(isinstance(s_, ast.Assign) and isinstance(s_.value, ast.Constant) and s_.value.value is True for s_ in n.body) and any(isinstance(s_, ast.Break) for s_ in n.body):
+                crit.append(n)
+        ctx.need(len(crit) == 1, f"{f.qname}: the stopping test (sets a flag True and breaks) was not found")
+        comps = [c for c in ast.walk(crit[0].test) if isinstance(c, ast.Compare) and len(c.ops) == 1 and isinstance(c.ops[0], (ast.Lt, ast.LtE))]
+        n_hist = 0
+        for c in comps:
+            keys = [x.slice.value for x in ast.walk(c.left) if isinstance(x, ast.Subscript) and isinstance(x.slice, ast.Constant) and isinstance(x.slice.value, str)]
+            if len(keys) != 1:
+                continue
+            hist = keys[0]
+            tols = [x.id for x in ast.walk(c.comparators[0]) if isinstance(x, ast.Name) and x.id not in (a.arg for a in f.node.args.args)]
+            tols = [t for t in tols if _option_key_of(f.node, t) is not None or t.startswith("tol")]
+            n_hist += 1
+            ctx.instance(R)
+            want = "tol_distance" if "distance" in hist else ("tol_residual" if "residual" in hist else ("tol_increment" if "increment" in hist else None))
+            got = [_option_key_of(f.node, t) for t in tols]
+            ctx.ob(R, f.qname, f"criterion on history '{hist}' is bounded by the option '{want}'", want is not None and got == [want],
+                   f"`{norm(c)[:90]}` uses {dict(zip(tols, got))}: the caller's {want} does not control this criterion", c)
+        ctx.need(n_hist >= 3, f"{f.qname}: fewer than three stopping criteria recognised")
+    ctx.floor(R, 6)
+
+
 def run(ctx):
     rule_a(ctx)
     rule_b(ctx)
@@ -704,3 +768,9 @@ def run(ctx):
     rule_c(ctx)
     rule_d(ctx)
     rule_e(ctx)
+    rule_h(ctx)
+    # the distance is the cost of the *cell* flux reconstructed from the face flux by face_to_cell (C06.c)
+    from . import c06
+    from .common import shared
+
+    shared(ctx, "C04.d", c06.rule_c, why="distance, transport density and info['flux'] all integrate face_to_cell(flat_flux, pt)")
